@@ -223,6 +223,7 @@ def main_():  # noqa
             known_hits[k.get('id', k['what'][:40])] = dict(k=k, n=1, replay=jpath)
         else:
             print('NOTE: the stored reproducer of listed finding %s no longer fails on this tree (%s)' % (k.get('id', '?'), rep['kind']))
+    overdue = []
     agg = dict(runs=0, steps_total=0, steps_max=0, switches_total=0, threads_total=0, counters={}, strategies={}, violation_classes={}, samples=[], nondet=0, infra=0, variants={}, phases=[])
     distinct = set()
     nontrivial_runs = 0
@@ -262,6 +263,18 @@ def main_():  # noqa
                 done_outs.append(w['out'])
                 if rc != 0 and w.get('killed'):
                     agg['counters']['workers_cut_by_wall_clock'] = agg['counters'].get('workers_cut_by_wall_clock', 0) + 1
+                    # the seed it was on is examined on its own afterwards (a run that needs its whole step budget - a hang - can outlast the phase)
+                    try:
+                        lb, fin = None, set()
+                        for line in open(w['out'], errors='replace'):
+                            if line.startswith('B '):
+                                lb = int(line.split()[1])
+                            elif line[:2] in ('R ', 'I '):
+                                fin.add(int(line.split()[1]))
+                        if lb is not None and lb not in fin:
+                            overdue.append((ph['variant'], lb))
+                    except (OSError, ValueError):
+                        pass
                 elif rc != 0:
                     # the worker died: find the seed it was on, record a crash, restart after it
                     last_b = None
@@ -366,6 +379,23 @@ def main_():  # noqa
         else:
             reported.append((jpath, cls, rep['msg'] + hash_note))
 
+    # seeds a worker was still running when the driver cut it: each gets one run of its own with a generous wall clock
+    for variant, oseed in overdue[:3]:
+        binary = binaries[variant]
+        r = sh([binary, 'genplan', '--seed', str(oseed), '--prop', pid, '--tier', tier], cwd=VERIF)
+        lines = [l for l in r.stdout.splitlines() if l.strip()] + ['property=' + pid, 'seed=%d' % oseed]
+        rep = run_replay(binary, lines, pid, tmpdir, timeout=900)
+        agg['counters']['overdue_seeds_reexamined'] = agg['counters'].get('overdue_seeds_reexamined', 0) + 1
+        if rep['kind'] in ('violation', 'crash'):
+            jpath = os.path.join(VERIF, 'replays', '%s-%d.json' % (pid, oseed))
+            json.dump(plan_to_replay_json(pid, engine, variant, oseed, '\n'.join(lines), rep['cls'], rep.get('msg', ''), rep.get('hash', '')), open(jpath, 'w'), indent=1)
+            k = match_known(known, pid, rep['cls'], rep.get('msg', ''))
+            if k:
+                known_hits.setdefault(k['id'], dict(k=k, n=0, replay=jpath))['n'] += 1
+            else:
+                reported.append((jpath, rep['cls'], rep.get('msg', '') + ' [not minimised: the run outlasted its phase and was examined on its own]'))
+        elif rep['kind'] != 'clean':
+            sim_faults.append('seed %d: still running when its worker was cut, and no verdict within 900 s on its own (%s)' % (oseed, rep['kind']))
     seen_crash = {}
     crash_deadline = time.time() + float(os.environ.get('VERIF_CRASH_EXAM_S', '240'))
     crashes_not_examined = 0
